@@ -85,7 +85,15 @@ func (v *Vue) processComponentNode(node *html.Node) error {
 func (v *Vue) replaceWithInclude(node *html.Node, filename string) error {
 	// Set the include attribute on the node itself
 	node.Data = "template"
-	node.Attr = append(node.Attr, html.Attribute{
+	// (the file is the registered one: an attribute that happens to be called include is not
+	// allowed to redirect the tag to another file)
+	attrs := make([]html.Attribute, 0, len(node.Attr)+1)
+	for _, a := range node.Attr {
+		if a.Key != "include" {
+			attrs = append(attrs, a)
+		}
+	}
+	node.Attr = append(attrs, html.Attribute{
 		Key: "include",
 		Val: filename,
 	})
